@@ -2,5 +2,4 @@ package sim
 
 // Scenario payload stubs (replaced as scenarios are implemented).
 
-type InteropCase struct{}
 type LifeCase struct{}
